@@ -97,6 +97,8 @@ class BHistory:
         self.w = {"set": r.choice([3, 5, 8]), "del": r.choice([1, 2, 4]), "sete": r.choice([0, 1, 2]), "sub": r.choice([0, 1, 2]), "reopen": r.choice([0, 0, 1])}
         self.via_dict = r.random() < 0.5
         self.p_hashval = r.choice([0.0, 0.0, 0.1, 0.3])
+        self.p_bodyval = r.choice([0.0, 0.0, 0.1, 0.3])
+        self.p_hdl = r.choice([0.0, 0.0, 0.1, 0.3])
 
     def via(self):
         return "d" if self.via_dict and self.rng.random() < 0.6 else "m"
@@ -124,6 +126,10 @@ class BHistory:
             c = {"op": "set", "k": hx(k), "v": hx(v), "via": self.via()}
             if rng.random() < self.p_hashval:
                 c["vh"] = rng.randrange(1000)
+            elif rng.random() < self.p_bodyval:
+                c["vb"] = rng.randrange(1000)
+            if rng.random() < self.p_hdl:
+                c["hdl"] = 1
             return c
         present.pop(k, None)
         return {"op": kind, "k": hx(k), "via": self.via()}
